@@ -46,11 +46,11 @@ fn main() {
         ck.inconclusive("sample models (/repo/rten-onnx/test-data, /verif/corpus/model_load_*) not found");
     }
     let id = "C05";
-    let q = ck.pick(1, 25);
+    let q = ck.pick(1, 12);
 
     ck.prop_export(
         "onnx-fields",
-        6000 * q,
+        4000 * q,
         || {
             (raw_graph(2, 6), proptest::collection::vec(raw_mut(), 1..=3))
                 .prop_map(|(graph, muts)| Case::Onnx { graph, muts, bops: vec![] })
@@ -60,7 +60,7 @@ fn main() {
     );
     ck.prop_export(
         "rten-fields",
-        8000 * q,
+        6000 * q,
         || {
             (raw_rten(), proptest::collection::vec(raw_mut(), 0..=3))
                 .prop_map(|(raw, muts)| Case::Rten { raw, muts, bops: vec![], in_model: false })
@@ -70,7 +70,7 @@ fn main() {
     );
     ck.prop_export(
         "onnx-bytes",
-        3000 * q,
+        2000 * q,
         || {
             (raw_graph(2, 5), proptest::collection::vec(raw_mut(), 0..=1), proptest::collection::vec(bop(), 1..=4))
                 .prop_map(|(graph, muts, bops)| Case::Onnx { graph, muts, bops })
@@ -80,7 +80,7 @@ fn main() {
     );
     ck.prop_export(
         "rten-bytes",
-        5000 * q,
+        3500 * q,
         || {
             (raw_rten(), proptest::collection::vec(raw_mut(), 0..=1), proptest::collection::vec(bop(), 1..=4), any::<bool>())
                 .prop_map(|(raw, muts, bops, in_model)| Case::Rten { raw, muts, bops, in_model })
@@ -90,7 +90,7 @@ fn main() {
     );
     ck.prop_export(
         "sample-bytes",
-        1500 * q,
+        1200 * q,
         || (any::<u8>(), proptest::collection::vec(bop(), 0..=4)).prop_map(|(which, bops)| Case::Sample { which, bops }),
         |c| case::oracle(id, c, &profile, &samples),
         |c| case::export(c, &profile, &samples),
@@ -100,7 +100,8 @@ fn main() {
     ck.enumerate("corpus", true, corpus.into_iter(), |c| case::oracle(id, c, &profile, &samples));
     worker::retire();
 
-    if ck.tier() == vcore::Tier::Thorough && !ck.is_replay() {
+    // the libFuzzer build is its own (ASan, nightly) build: run the campaigns once, with the ship flavour
+    if ck.tier() == vcore::Tier::Thorough && !ck.is_replay() && vcore::flavour() == "ship" {
         for (fmt, target) in [(Fmt::Onnx, "model_load_onnx"), (Fmt::Rten, "model_load_rten")] {
             if ck.selected(&format!("fuzz-{target}")) {
                 fuzz_campaign(&mut ck, fmt, target, 3_000_000, 300, &profile, &samples);
